@@ -49,8 +49,9 @@ def dd(hi, frac=None):
         frac = rng.choice([0.0, 1.0, 0.5, rng.random(), rng.random() * 1e-6, rng.random()])
     u = math.ulp(hi) / 2
     lo = u * frac * rng.choice([-1.0, 1.0]) * 0.999
-    s = hi + lo
-    assert s == hi
+    if hi + lo != hi:
+        lo /= 4.0            # below a power of two the spacing halves
+    assert hi + lo == hi
     return (hi, lo)
 
 
@@ -88,6 +89,10 @@ for i in range(40):                                   # cbrt (both signs)
 for i in range(40):                                   # hypot
     x = dd(logu(-400, 400)); y = dd(logu(-400, 400)) if i % 3 else dd(x[0] * rng.uniform(0.5, 2.0))
     r = mpmath.sqrt(val(x) ** 2 + val(y) ** 2); add(3, x, y, r, 48 * U * r)
+for k in range(1, 61, 2):                             # hypot, magnitude ratio 2^k (the band where the small leg still matters)
+    x = dd(float(mpf(2) ** rng.uniform(-40, 40)) * rng.choice([-1.0, 1.0])); y = dd(x[0] * 2.0 ** -k * rng.uniform(1.0, 1.9))
+    if k % 4 == 1: x, y = y, x
+    r = mpmath.sqrt(val(x) ** 2 + val(y) ** 2); add(3, x, y, r, 48 * U * r)
 for i in range(60):                                   # powi
     n = rng.choice([2, 3, 5, 7, -2, -3, 10, -10, 17, 100, -100, 1000, -1000, 12345, -54321, 1 << 20, -(1 << 20)])
     lim = 850.0 / abs(n)
@@ -100,6 +105,17 @@ for i in range(60):                                   # exp on [-600, 700]
     h = rng.uniform(-600, 700) if i % 4 else rng.choice([-1, 1]) * float(mpf(2) ** rng.uniform(-60, 3))
     if i % 10 == 0: h = round(h * 2) / 2 + 0.25
     x = dd(h); r = mpmath.exp(val(x)); add(5, x, (0.0, 0.0), r, two(-100) * r)
+# exp: every entry of the three lookup tables (exp(1/2)^b, b = 1..31; exp(16)^a, a = 1..37 within the stated range; exp(n/128) - 1, n = -32..32), both signs
+for b in range(1, 32):
+    for sg in (1, -1):
+        x = dd(sg * (b / 2 + rng.uniform(-0.2, 0.2))); r = mpmath.exp(val(x)); add(5, x, (0.0, 0.0), r, two(-100) * r)
+for a in range(1, 44):
+    for sg in (1, -1):
+        h = sg * (16 * a + rng.uniform(-0.2, 0.2) + rng.choice([0, 0.5, 3.5, 11.5]))
+        if -600 <= h <= 700:
+            x = dd(h); r = mpmath.exp(val(x)); add(5, x, (0.0, 0.0), r, two(-100) * r)
+for n in range(-32, 33):
+    x = dd(rng.choice([0.0, 1.0, -2.0, 5.5]) + n / 128 + rng.uniform(-0.003, 0.003)); r = mpmath.exp(val(x)); add(5, x, (0.0, 0.0), r, two(-100) * r)
 for i in range(50):                                   # exp2 on [-900, 1000]
     h = rng.uniform(-900, 1000) if i % 4 else rng.choice([-1, 1]) * float(mpf(2) ** rng.uniform(-40, 3))
     x = dd(h); r = mpf(2) ** val(x); add(6, x, (0.0, 0.0), r, two(-93) * r)
